@@ -130,15 +130,37 @@ func VF_C02_service() {
 	w := vfWire()
 	n1, n2 := vfStr("n1", 2), vfStr("n2", 2)
 	vfAssume(vfInRe(n1, `\A`+docName+`\z`) && vfInRe(n2, `\A`+docName+`\z`))
-	m1, m2 := vfStr("m1", 3), vfStr("m2", 3)
+	m1, m2, m3 := vfStr("m1", 3), vfStr("m2", 3), vfStr("m3", 3)
 	f1, f2 := vfStr("f1", 2), vfStr("f2", 2)
 	vfAssume(f1 != f2)
-	i1, i2 := vfBool("imm1"), vfBool("imm2")
+	i1, i2, i3 := vfBool("imm1"), vfBool("imm2"), vfBool("imm3")
 	c := "New"
+	// every argument list has its own length (0..2, omitted or empty when 0);
+	// its elements rotate through the two references and a literal
+	pool := []any{"@" + n1, "@" + n2, 7}
+	wantDep := []string{n1, n2, ""}
+	mk := func(tag string, off int) ([]any, []int) {
+		k := vfChoice(tag+".len", 4)
+		if k == 3 {
+			return []any{}, nil
+		}
+		var l []any
+		var ix []int
+		for j := 0; j < k; j++ {
+			x := (j + off) % 3
+			l = append(l, pool[x])
+			ix = append(ix, x)
+		}
+		return l, ix
+	}
+	a0, x0 := mk("ctor", 0)
+	a1, x1 := mk("call1", 1)
+	a2, x2 := mk("call2", 2)
+	a3, x3 := mk("call3", 0)
 	svc := input.Service{
 		Constructor: &c,
-		Args:        []any{"@" + n1, "@" + n2, 7},
-		Calls:       []input.Call{{Method: m1, Args: []any{"@" + n1}, Immutable: i1}, {Method: m2, Args: []any{"@" + n2, "@" + n1}, Immutable: i2}},
+		Args:        a0,
+		Calls:       []input.Call{{Method: m1, Args: a1, Immutable: i1}, {Method: m2, Args: a2, Immutable: i2}, {Method: m3, Args: a3, Immutable: i3}},
 		Fields:      map[string]any{f1: "@" + n1, f2: "@" + n2},
 	}
 	var o output.Output
@@ -155,13 +177,25 @@ func VF_C02_service() {
 		}
 		return ""
 	}
+	same := func(got []output.Arg, ix []int) bool {
+		if len(got) != len(ix) {
+			return false
+		}
+		for j, x := range ix {
+			if dep(got[j]) != wantDep[x] || (x == 2 && got[j].Code != "dependencyValue(int(7))") || (x != 2 && got[j].Code != "dependencyService("+vfQuote(wantDep[x])+")") {
+				return false
+			}
+		}
+		return true
+	}
 	vfAssert(s.Constructor == "New" && s.Value == "", "created by the declared constructor")
-	vfAssert(len(s.Args) == 3 && dep(s.Args[0]) == n1 && dep(s.Args[1]) == n2 && s.Args[2].Code == "dependencyValue(int(7))", "arguments in declared order")
-	vfAssert(len(s.Calls) == 2 && s.Calls[0].Method == m1 && s.Calls[1].Method == m2, "calls in declared order")
-	if len(s.Calls) == 2 {
-		vfAssert(s.Calls[0].Immutable == i1 && s.Calls[1].Immutable == i2, "wither flag preserved per call")
-		vfAssert(len(s.Calls[0].Args) == 1 && dep(s.Calls[0].Args[0]) == n1, "first call's arguments")
-		vfAssert(len(s.Calls[1].Args) == 2 && dep(s.Calls[1].Args[0]) == n2 && dep(s.Calls[1].Args[1]) == n1, "second call's arguments in order")
+	vfAssert(same(s.Args, x0), "constructor arguments: exactly the declared ones, in declared order")
+	vfAssert(len(s.Calls) == 3 && s.Calls[0].Method == m1 && s.Calls[1].Method == m2 && s.Calls[2].Method == m3, "calls in declared order")
+	if len(s.Calls) == 3 {
+		vfAssert(s.Calls[0].Immutable == i1 && s.Calls[1].Immutable == i2 && s.Calls[2].Immutable == i3, "wither flag preserved per call")
+		vfAssert(same(s.Calls[0].Args, x1), "first call: exactly its own declared arguments, in order")
+		vfAssert(same(s.Calls[1].Args, x2), "second call: exactly its own declared arguments, in order")
+		vfAssert(same(s.Calls[2].Args, x3), "third call: exactly its own declared arguments, in order")
 	}
 	vfAssert(len(s.Fields) == 2, "both fields")
 	if len(s.Fields) == 2 {
